@@ -58,6 +58,8 @@ def docs(tier):
     for i, a in enumerate(small):
         for j, c in enumerate(small):
             yield [a, c], (i + j) % 15, 'compact', False
+            if any_decl([a]) and any_decl([c]):
+                yield [a, c], 0, 'compact', 'same'          # every declaration is `b:c;`: rule bodies repeat each other's text
 
 
 def no_comment(sh):
@@ -160,7 +162,7 @@ def run_shard(shard, ctx, tier):
     for idx, (sh, rot, lay, paren) in enumerate(docs(tier)):
         if idx % of != k:
             continue
-        text, nodes = D.emit(sh, rot, lay, D.DECLS_PAREN if paren is True else None)
+        text, nodes = D.emit(sh, rot, lay, D.DECLS_PAREN if paren is True else [('b', 'c')] if paren == 'same' else None)
         ctx.states += 1
         for p in range(len(text) + 1):
             ctx.tick((text, p))
@@ -194,7 +196,8 @@ def _tup(sh):
 
 
 def check_case(case):
-    text, nodes = D.emit(_tup(case['shape']), case['rotation'], case['layout'], D.DECLS_PAREN if case.get('paren') is True else None)
+    pr_ = case.get('paren')
+    text, nodes = D.emit(_tup(case['shape']), case['rotation'], case['layout'], D.DECLS_PAREN if pr_ is True else [('b', 'c')] if pr_ == 'same' else None)
     return [(refine(c, text, nodes, case['pos'], d), d) for c, d in check_pos(text, nodes, case['pos'])]
 
 
